@@ -125,7 +125,7 @@ def build_inputs(prog):
     tmpl.stack.algos = (RunCounter(),) + tuple(tmpl.stack.algos)
     tmpl.stack.check_run_always = True
     data = btdrv.frame(prog, prog["px"], prog["cols"])
-    ex = {k: btdrv.frame(prog, v) for k, v in prog.get("extra", {}).items() if isinstance(v, dict)}
+    ex = btdrv.build_extras(prog)
     return tmpl, data, ex
 
 
@@ -168,7 +168,7 @@ def solo(prog, k, base_seed):
 
 def _job(args):
     seed, i, schedule = args
-    prog = btgen.prog_by_family(seed, i, ["lookback", "lookback", "flat", "nested"])
+    prog = btgen.prog_by_family(seed, i, ["lookback", "lookback", "flat", "nested", "closeroll"])
     try:
         ses = play(prog, schedule, 1000 + i)
         ses["solo"] = solo(prog, ses["k"], 1000 + i)
@@ -216,7 +216,7 @@ def other_seed_results(seed, i, schedule, hashseed):
     """The same session in a fresh interpreter with another hash seed."""
     env = dict(os.environ, PYTHONHASHSEED=str(hashseed))
     code = ("import sys, json; sys.path.insert(0, %r); import check_c11 as c; import btgen; "
-            "prog = btgen.prog_by_family(%d, %d, ['lookback','lookback','flat','nested']); "
+            "prog = btgen.prog_by_family(%d, %d, ['lookback','lookback','flat','nested','closeroll']); "
             "print('RES', json.dumps(c.solo(prog, %d, %d)))" % (os.path.dirname(os.path.abspath(__file__)), seed, i, max(b for _, b in schedule), 1000 + i))
     p = subprocess.run([sys.executable, "-c", code], env=env, capture_output=True, text=True, timeout=300)
     for line in p.stdout.splitlines():
@@ -238,14 +238,14 @@ def run(prop, tier, replay=None):
     rep.cov["exhaustive"] = complete
     sched = schedules_from_tlc(rep)
     rng = random.Random(seed)
-    nprog = 3 if tier == "quick" else 40
+    nprog = 16 if tier == "quick" else 60
     jobs = []
     for j in range(nprog):
         for s in sched:
             jobs.append((seed, j, s))
     if tier == "quick":
         rng.shuffle(jobs)
-        jobs = jobs[:48]
+        jobs = jobs[:64]
     if replay:
         p = json.load(open(replay))
         jobs = [(p["seed"], p["i"], [tuple(x) for x in p["schedule"]])]
@@ -255,7 +255,12 @@ def run(prop, tier, replay=None):
     others = {}
     import concurrent.futures as cf
 
-    pick = [r for r in res if r["exc"] == "none"][:nhs]
+    pick, seen_prog = [], set()
+    for r in res:  # one session per distinct program
+        if r["exc"] == "none" and r["i"] not in seen_prog:
+            seen_prog.add(r["i"])
+            pick.append(r)
+    pick = pick[:nhs]
     with cf.ThreadPoolExecutor(max_workers=8) as ex:
         futs = {ex.submit(other_seed_results, seed, r["i"], r["schedule"], 7 + n): r["i"] for n, r in enumerate(pick)}
         for f, i in futs.items():
